@@ -25,6 +25,7 @@ TabResults(how, tab) ==
     [] how.name = "subset_list" -> {SubsetList(tab, how.idx)}
     [] how.name = "copy"        -> {tab}
     [] how.name = "binning"     -> {tab}
+    [] how.name = "roundtrip"   -> {tab}          \* molecules saved to a file (csv / parquet) and reloaded (C13 in a session)
 TabAccepts(how, tab, t2) ==
   CASE how.name = "sample" -> IF how.n > NRows(tab) THEN FALSE
                               ELSE /\ t2.cols = tab.cols /\ NRows(t2) = how.n
@@ -68,12 +69,17 @@ Accepts(op, L, T, o) ==
               /\ TabAccepts(op.how, L.tab, o.res.tab)
               /\ SameLdr(o.res, DeriveL(L, op.how, o.res.tab))
     [] op.name = "observe" ->
-         /\ o.err = "" /\ Untouched(L, T, o) /\ ObsOk(L, o.obs)
-         /\ (op.via = "align" => SameLdr(o.res, L))
+         \* computations on an empty loader are not claimed (they may raise)
+         IF NRows(L.tab) = 0 THEN Untouched(L, T, o)
+         ELSE /\ o.err = "" /\ Untouched(L, T, o) /\ ObsOk(L, o.obs)
+              /\ (op.via = "align" => SameLdr(o.res, L))
+              \* average (C09 in a session): n * centre voxel of the average = sum of the rows' identity codes
+              /\ (op.via = "average" => o.avg_n = FoldLeft(LAMBDA acc, c : acc + c, 0, o.codes) /\ Len(o.codes) = NRows(L.tab))
     [] op.name = "groupby" ->
-         /\ o.err = "" /\ Untouched(L, T, o)
-         /\ GroupsOk(L, op, o.groups)
-         /\ o.groups2 = o.groups                      \* Reiterable
+         IF NRows(L.tab) = 0 THEN Untouched(L, T, o)
+         ELSE /\ o.err = "" /\ Untouched(L, T, o)
+              /\ GroupsOk(L, op, o.groups)
+              /\ o.groups2 = o.groups                      \* Reiterable
 
 Why(op, L, T, o) ==
   IF Accepts(op, L, T, o) THEN "ok"
@@ -84,6 +90,7 @@ Why(op, L, T, o) ==
   ELSE IF op.name = "derive" /\ ~TabAccepts(op.how, L.tab, o.res.tab) THEN "DerivedRowsWrong"
   ELSE IF op.name = "derive" THEN "DerivedLoaderWrong"
   ELSE IF op.name = "observe" /\ ~ObsOk(L, o.obs) THEN "RowNotAligned"
+  ELSE IF op.name = "observe" /\ op.via = "average" THEN "AverageNotTheMean"
   ELSE IF op.name = "observe" THEN "ResultRowsWrong"
   ELSE IF op.name = "groupby" /\ GroupsOk(L, op, o.groups) THEN "NotReiterable"
   ELSE IF op.name = "groupby" /\ \E i \in 1..Len(o.groups) : ~ObsOk(o.groups[i].ldr, o.groups[i].obs) THEN "GroupRowNotAligned"
